@@ -83,7 +83,7 @@ def main(argv: list[str]) -> int:
 
     with open(out_path, "w") as out:
         for case in cases:
-            res = run_one(mod, case, timeout)
+            res = run_one(mod, case, int(case.get("timeout", timeout)))
             out.write(json.dumps(res) + "\n")
             out.flush()
         obs.stop()
